@@ -26,6 +26,7 @@ real _finish.finish() (state.json -> load_app_safe -> _cleanup ->
 _cleanup_network -> _cleanup_ephemeral_ports) or, for some containers,
 load_app_safe + _cleanup_network called directly.
 """
+import errno
 import json
 import os
 import shutil
@@ -105,6 +106,7 @@ class Host:
         self.steps = 0
         self.sub_steps = 0
         self.cut_fired = False
+        self.io_faults_injected = {}
         self.tm_env = None
         self._inotifies = []
 
@@ -173,10 +175,12 @@ class Host:
         rebind(rrdutils, 'flush_noexc', lambda rrdfile, rrd_socket=None: None)
 
         def gethostbyname(host):
+            # numeric input is not looked up but parsed the way inet_aton does (zero-padded octets are read as
+            # octal, '10.001.002.003' -> '10.1.2.3') and returned in canonical dotted-quad form, as libc does
             try:
-                socket.inet_aton(host)
+                packed = socket.inet_aton(host)
                 if host.count('.') == 3:
-                    return host
+                    return socket.inet_ntoa(packed)
             except OSError:
                 pass
             if host in self.resolver:
@@ -627,11 +631,19 @@ class Host:
         self.arm(cut)
         status = 'complete'
         io_restore = None
-        if cut is not None and cut[0] == 'ioerror':
-            # the open(2) of the container's state.json fails once with a transient error (ENFILE: the system file table
-            # is momentarily full); everything after it works
-            from treadmill.appcfg import manifest as _manifest
-            real_io = _manifest.io
+        if cut is not None and cut[0] in ('ioerror', 'ioerror_reply'):
+            # one open(2) of the finish fails once with a transient error (ENFILE: the system file table is
+            # momentarily full; EIO); everything after it works.  'ioerror': the container's state.json;
+            # 'ioerror_reply': the reply.yml of a resource service request (the finish reads the network reply)
+            if cut[0] == 'ioerror':
+                from treadmill.appcfg import manifest as _module
+                suffix, err = 'state.json', (errno.ENFILE, 'Too many open files in system (injected)')
+            else:
+                from treadmill.services import _base_service as _module
+                suffix = 'reply.yml'
+                err = ((errno.ENFILE, 'Too many open files in system (injected)') if cut[1] < 0.5
+                       else (errno.EIO, 'Input/output error (injected)'))
+            real_io = _module.io
             host = self
 
             class _Io:
@@ -640,12 +652,13 @@ class Host:
 
                 @staticmethod
                 def open(path, *a, **kw):
-                    if not host.cut_fired and str(path).endswith('state.json'):
+                    if not host.cut_fired and str(path).endswith(suffix):
                         host.cut_fired = True
-                        raise InjectedIOError(23, 'Too many open files in system (injected)', str(path))
+                        host.io_faults_injected[suffix] = host.io_faults_injected.get(suffix, 0) + 1
+                        raise InjectedIOError(err[0], err[1], str(path))
                     return real_io.open(path, *a, **kw)
-            _manifest.io = _Io()
-            io_restore = (_manifest, real_io)
+            _module.io = _Io()
+            io_restore = (_module, real_io)
         try:
             if via == 'finish':
                 _finish.finish(self.tm_env, container)
@@ -672,6 +685,12 @@ class Host:
             status = 'interrupted'
         except InjectedIOError:
             status = 'interrupted'          # the finish fails and is retried
+        except Exception:       # noqa
+            # a finish that ends with whatever exception after the injected transient read error has failed: the
+            # cleanup supervisor starts it again.  (A finish that RETURNS is judged as a completed finish.)
+            if not (cut is not None and cut[0] == 'ioerror_reply' and self.cut_fired):
+                raise
+            status = 'interrupted'
         finally:
             if io_restore is not None:
                 io_restore[0].io = io_restore[1]
